@@ -3,18 +3,6 @@ From Elex Require Import Base.Frame Base.QRound Model.Aggregate.
 Import ListNotations.
 Open Scope Z_scope.
 
-(* a unit's votes can be attributed to a group of this aggregate list: units outside the model are
-   (deliberately, pinned by the repository's tests) left out of classification-level tables *)
-Definition attributable (a : aggr) (r : urow) : bool :=
-  match ufr r with FUnx => negb (has_cls a) | _ => true end.
-
-Definition contrib (a : aggr) (vnon : urow -> Z) (vf : urow -> Z) (r : urow) : Z :=
-  match ufr r with
-  | FRep => vf r
-  | FNon => vnon r
-  | FUnx => if has_cls a then 0 else vf r
-  end.
-
 Section Generic.
   Variable A : Type.
   Variable k : A -> option key.
@@ -141,7 +129,6 @@ Proof.
   rewrite (H g (or_introl eq_refl)), IH; [reflexivity | intros; apply H; right; assumption].
 Qed.
 
-Definition is_some {T} (o : option T) : bool := match o with Some _ => true | None => false end.
 
 (* no vote lost, none double counted: the table's counted votes add up to the votes of all attributable, keyed units *)
 Theorem no_vote_lost a rows :
@@ -221,9 +208,6 @@ Proof.
 Qed.
 
 (* ---------------- C11: an extra unexpected unit only adds its own votes ---------------- *)
-
-Definition delta (a : aggr) (x : urow) (g : key) : Z :=
-  if attributable a x && okey_is (kf a x) g then ures x else 0.
 
 Lemma col_delta a vnon rows x g : ufr x = FUnx ->
   votes_col a ures (rows ++ [x]) g + non_col a vnon (rows ++ [x]) g =
